@@ -661,6 +661,14 @@ def _fold(E, res, vidx, viol, lists, stats):
 # families
 
 
+#  compiled and `_sparse` twins that agree on directed networks too on the
+#  unchanged library (the other twins differ there in how they read one-way
+#  links; the class documents its measures for undirected networks)
+SPARSE_AGREE_DIRECTED = ("cross_local_clustering_sparse",
+                         "cross_global_clustering_sparse",
+                         "cross_adjacency_sparse")
+
+
 def fam_cross(case):
     n, directed, mask, wk, L1, L2 = case
     E = Env(n, directed, mask, wk)
@@ -694,7 +702,8 @@ def fam_cross(case):
         ev += 1
         same = go[0][0] == go[1][0] and (go[0][0] == "exc" or
                                          equal(go[0][1], go[1][1]))
-        if not same and "viol" not in (a[0], b[0]) and not E.directed:
+        if not same and "viol" not in (a[0], b[0]) and (
+                not E.directed or name in SPARSE_AGREE_DIRECTED):
             viol.append(V("%s.%s:!=compiled:%s" % (CLS, name, _tag(E)),
                           "lists %s" % [L1, L2], brief(go[1]), brief(go[0])))
     # argument swap on undirected networks, each unordered pair once
